@@ -35,6 +35,7 @@ from .instructions import Push, Pop, SubImm, AddImm, MovsxReg64Rm8
 from .instructions import Call, Ret, bits16, RmReg16, bits32, RmReg32
 from .x87_instructions import x87_isa
 from .sse2_instructions import sse1_isa, sse2_isa, Movss, Movsd
+from .sse2_instructions import Movss2, Movsd2
 from .sse2_instructions import RmXmmRegSingle, RmXmmRegDouble
 from .sse2_instructions import PushXmmRegisterDouble, PopXmmRegisterDouble
 from .sse2_instructions import PushXmmRegisterSingle, PopXmmRegisterSingle
@@ -521,6 +522,23 @@ class X86_64Arch(Architecture):
                     uses=(registers.eax,), defs=(registers.rax,)
                 )
                 yield Push(rax)
+            elif isinstance(push_reg, registers.Register16):
+                yield self.move(registers.ax, push_reg)
+                yield RegisterUseDef(
+                    uses=(registers.ax,), defs=(registers.rax,)
+                )
+                yield Push(rax)
+            elif isinstance(push_reg, registers.Register8):
+                yield self.move(al, push_reg)
+                yield RegisterUseDef(uses=(al,), defs=(registers.rax,))
+                yield Push(rax)
+            elif isinstance(push_reg, registers.XmmRegisterDouble):
+                # All scalars take an 8 byte stack slot
+                yield SubImm(rsp, 8)
+                yield Movsd2(instructions.RmMem(rsp), push_reg)
+            elif isinstance(push_reg, registers.XmmRegisterSingle):
+                yield SubImm(rsp, 8)
+                yield Movss2(instructions.RmMem(rsp), push_reg)
             elif isinstance(push_reg, StackLocation):
                 # Invoke massive memcpy action!
                 # TODO: how about alignment?
